@@ -395,6 +395,19 @@ def r09_8(prog: Program, rep: Report):
                     made_ok = False
     if n_made:
         rep.check(made_ok, "R09.8", f.qualname, f.loc, "a str member is evaluated through refs.forwardref(member), a ForwardRef member as it is", "what the walk evaluates for a member that is a reference is not `forwardref(member)` for a str and the member itself for a ForwardRef (the two cases are swapped, or the reference is never made): refs.evaluate hands a str back unchanged, so list['Node'] keeps a member that is a str object (TypeError in the dispatch), or a ForwardRef is wrapped in another one", detail="reference-members-made")
+    # ... and "says nothing" (Any / no annotation) is asked of what the reference names: on a path that evaluates a member,
+    # the skip test is applied to the evaluated value
+    n_eval = skipped_raw = 0
+    for p in ps:
+        ev_vals = [e[2] for e in p.events if e[0] == "assign" and T.is_call_to(e[2], "typelib.py.refs.evaluate")]
+        if not ev_vals:
+            continue
+        n_eval += 1
+        tests = [g for g, _pol in p.guards() if g[0] == "cmp" and g[1] in ("in", "notin") and T.contains(g[3], lambda y: T.refname(y) == "typing.Any")] + [g for g, _pol in p.guards() if g[0] == "cmp" and g[1] in ("is", "isnot", "==", "!=") and any(T.refname(s_) == "typing.Any" for s_ in g[2:4])]
+        if not any(T.contains(g, lambda y: T.is_call_to(y, "typelib.py.refs.evaluate")) for g in tests):
+            skipped_raw += 1
+    if n_eval:
+        rep.check(not skipped_raw, "R09.8", f.qualname, f.loc, f"the Any / no-annotation skip is applied to the evaluated member ({n_eval} evaluating path(s))", "the walk asks whether a member says nothing (Any, no annotation) before it evaluates the member's reference: under `from __future__ import annotations` a second parameter annotated Any is cut as ForwardRef('typing.Any', module='typing'), which does not evaluate (NameError: name 'typing' is not defined) -- the first one became an ordinary node, the evaluated twin has no Any node at all", detail="skip-after-evaluation")
     if not makes_refs:
         rep.held("R09.8", f.qualname, f.loc, "signature hints are never handed over as references", nontrivial=False)
     else:
